@@ -114,7 +114,9 @@ def plan(rng, tier):
     else:
         def st():
             return sorted(set(g.keylist(0, 5)))
-        op = ["resolve", st(), st(), st()]
+        op = ["resolve", st(), st(), st(),
+              rng.choice([[0, 0, 0], [0, 0, 0], [1, 1, 1], [1, 2, 1],
+                          [1, 1, 2], [0, 1, 0], [1, 0, 1]])]
     follow = [g.op() for _ in range(rng.randint(4, 12))]
     return {"cfg": cfg, "build": build, "op": op, "follow": follow,
             "idx": [rng.randrange(1 << 16) for _ in range(3)],
@@ -214,17 +216,28 @@ def _do(plan, dom, c, live):
     if name == "resolve":
         mapping = is_mapping(kind)
 
-        def state(idx):
+        # op[4] (optional): successor link of each of the three leaf states
+        # (0: none, 1 / 2: one of two other leaves) -- differing links are
+        # refusal 0, an exit of its own
+        nxt = op[4] if len(op) > 4 else [0, 0, 0]
+        succ = [None, dom.cls(kind, impl)(), dom.cls(kind, impl)()]
+
+        def state(idx, link=0):
             items = []
             for k in idx:
                 items.append(dom.key(k))
                 if mapping:
                     items.append(dom.val(k % dom.nvals))
             st = (tuple(items),)
-            return ((st,),) if is_tree(kind) else st
+            if is_tree(kind):
+                return ((st,),)
+            if link:
+                st = (tuple(items), succ[link])
+            return st
         from BTrees.Interfaces import BTreesConflictError
         from . import twin
-        s1, s2, s3 = state(op[1]), state(op[2]), state(op[3])
+        s1, s2, s3 = (state(op[1], nxt[0]), state(op[2], nxt[1]),
+                      state(op[3], nxt[2]))
         inst = dom.cls(kind, impl)()
         try:
             if twin.PRECALL is not None:
